@@ -502,7 +502,7 @@ Proof.
   unfold f32_of_bits. change (2 ^ 23) with 8388608. change (2 ^ 24) with 16777216.
   pose proof (Z.mod_pos_bound b 8388608 ltac:(lia)) as Hf. pose proof (Z.mod_pos_bound (b / 8388608) 256 ltac:(lia)) as HE.
   destruct (Z.eqb_spec ((b / 8388608) mod 256) 255) as [E1|E1]; [destruct (b mod 8388608 =? 0); discriminate|].
-  destruct (Z.eqb_spec ((b / 8388608) mod 256) 0) as [E0|E0]; intros X; injection X as <- <- <-; lia.
+  destruct (Z.eqb_spec ((b / 8388608) mod 256) 0) as [E0|E0]; intros X; injection X as X1 X2 X3; clear X1; lia.
 Qed.
 
 Lemma remb_floor_nonneg bits x : remb_floor bits = Some x -> 0 <= x.
